@@ -464,6 +464,8 @@ pub struct FxPlan {
     pub clock_tz: Option<i8>,
     /// seconds added to the process's instant (see ProcEnv::now_shift)
     pub now_shift: i64,
+    /// See ProcEnv::session (u64::MAX = a detached one-off process that leaves a running session alone).
+    pub session: Option<u64>,
     pub fs_faults: FsFaultSpec,
     pub knobs: Knobs,
     pub hash_seed: u64,
@@ -565,6 +567,7 @@ pub fn run_fx_process(plan: FxPlan) -> FxObs {
     env.fs_faults = plan.fs_faults.to_faults();
     env.clock_tz_hours_west = plan.clock_tz;
     env.now_shift = plan.now_shift;
+    env.session = plan.session;
     let FxPlan { data, today, published_today, force, cache, mem_in, lookups, app_rows, app_files, app_console, app_legacy_date, app_date_fmt, net_faults, server_today, .. } = plan;
     // The process finds its cache directory the way the command line tool does: $HOME, then
     // util::os::home_dir_path() (which creates ~/.acb and makes it writable). No simulated process is
@@ -731,6 +734,7 @@ impl Reference {
             server_today: None,
             clock_tz: None,
             now_shift: 0,
+            session: None,
             fs_faults: FsFaultSpec::default(),
             knobs: Knobs::default(),
             hash_seed: 0x5EED,
